@@ -134,16 +134,18 @@ func linkNodesAndSinks(inner, sinks []Node, nodeIDs, sinkIDs []NodeID) (*linkedN
 func (l *linkedNode) flatten() map[NodeID]struct{} {
 	stack := []*linkedNode{l}
 	flattened := make(map[NodeID]struct{})
+	visited := make(map[*linkedNode]struct{})
 
 	for len(stack) > 0 {
 		node := stack[len(stack)-1]
 		stack = stack[:len(stack)-1]
 
-		// Skip already flattened nodes
-		if _, ok := flattened[node.nodeID]; ok {
+		// Skip already visited nodes (a node ID may be linked more than once)
+		if _, ok := visited[node]; ok {
 			continue
 		}
 
+		visited[node] = struct{}{}
 		flattened[node.nodeID] = struct{}{}
 
 		for _, child := range node.next {
